@@ -173,16 +173,29 @@ def _fmt(t):
     return (", ".join(outs) + " = " if outs else "") + op + " " + ", ".join(args)
 
 
+IMPORTS = ("From Coq Require Import NArith.\nFrom Verif Require Import C14M.MemSem C14M.MemFacts C14M.MemDse.\n"
+           "Open Scope string_scope.\nOpen Scope Z_scope.\n")
+
+
 def evaluate(records, name="c14m", shard=8, timeout=900):
-    """per record -> [strict accept, liberal accept]"""
-    imports = ("From Coq Require Import NArith.\nFrom Verif Require Import C14M.MemSem C14M.MemFacts C14M.MemDse.\n"
-               "Open Scope string_scope.\nOpen Scope Z_scope.\n")
-    exprs = []
-    for r in records:
-        chk, lib = ("fwd_check", "fwd_check_liberal") if r["kind"] == "fwd" else ("dse_check", "dse_check_liberal")
-        exprs.append(f"let f : func := {r['before']} in let g : func := {r['after']} in "
-                     f"[if {chk} f g then 1 else 0; if {lib} f g then 1 else 0]")
-    return coqrun.eval_zlists(imports, exprs, name, shard=shard, timeout=timeout)
+    """per record -> verdict: 'accepted' (strict, proved checker), 'unsupported' (only the liberal variant accepts), 'rejected'"""
+    def run(recs, liberal, tag):
+        exprs = []
+        for r in recs:
+            chk = ("fwd_check" if r["kind"] == "fwd" else "dse_check") + ("_liberal" if liberal else "")
+            exprs.append(f"let f : func := {r['before']} in let g : func := {r['after']} in [if {chk} f g then 1 else 0]")
+        return coqrun.eval_zlists(IMPORTS, exprs, tag, shard=shard, timeout=timeout) if exprs else []
+    strict = run(records, False, name)
+    verdicts = ["accepted" if (o and o[0] == 1) else None for o in strict]
+    rest = [r for r, v in zip(records, verdicts) if v is None]
+    lib = iter(run(rest, True, name + "_lib"))
+    out = []
+    for v in verdicts:
+        if v is None:
+            o = next(lib)
+            v = "unsupported" if (o and o[0] == 1) else "rejected"
+        out.append(v)
+    return out
 
 
 def compile_corpus(progs, levels, obs):
